@@ -1667,3 +1667,64 @@ func (p *Prog) fixedReturnType(t *types.Named) (int64, bool) {
 	}
 	return val, have
 }
+
+// ---------------- ADJUSTCOVER ----------------
+
+func init() {
+	register("ADJUSTCOVER", "cache maintenance covers every cache: each map-valued field of ExecuteCtx is emptied by Clear, and each per-chunk cache (a map whose values are columns) is re-indexed or emptied by AdjustChunkCache - after filtering, positions in a chunk mean other rows, so no by-position entry computed on the unfiltered chunk may survive", ruleAdjustCover)
+}
+
+func ruleAdjustCover(p *Prog, r *Result) {
+	ct := p.Named("ExecuteCtx")
+	if ct == nil {
+		r.undecided("anchor: ExecuteCtx not found")
+		return
+	}
+	st, ok := ct.Underlying().(*types.Struct)
+	if !ok {
+		r.undecided("anchor: ExecuteCtx is not a struct")
+		return
+	}
+	handled := func(fn *ssa.Function, field string) bool {
+		okv := false
+		for _, f := range p.staticClosure(fn, 2, nil) {
+			allInstrs(f, func(in ssa.Instruction) {
+				switch x := in.(type) {
+				case *ssa.MapUpdate:
+					if isFieldLoad(x.Map, "ExecuteCtx", field) {
+						okv = true
+					}
+				case *ssa.Call:
+					if b, isB := x.Call.Value.(*ssa.Builtin); isB && (b.Name() == "clear" || b.Name() == "delete") && len(x.Call.Args) > 0 && isFieldLoad(x.Call.Args[0], "ExecuteCtx", field) {
+						okv = true
+					}
+				case *ssa.Store:
+					if _, fl, _, ok := fieldOfAddr(x.Addr); ok && fl == field {
+						okv = true // replaced by a fresh map
+					}
+				}
+			})
+		}
+		return okv
+	}
+	clr, adj := p.Method(ct, "Clear"), p.Method(ct, "AdjustChunkCache")
+	if clr == nil || adj == nil {
+		r.undecided("anchor: ExecuteCtx.Clear / AdjustChunkCache not found")
+		return
+	}
+	n := 0
+	for i := 0; i < st.NumFields(); i++ {
+		f := st.Field(i)
+		mt, isMap := f.Type().Underlying().(*types.Map)
+		if !isMap {
+			continue
+		}
+		n++
+		r.add(handled(clr, f.Name()), "Clear|"+f.Name(), p.Pos(clr.Pos()), "Clear empties cache "+f.Name())
+		if _, perChunk := mt.Elem().Underlying().(*types.Slice); perChunk {
+			n++
+			r.add(handled(adj, f.Name()), "AdjustChunkCache|"+f.Name(), p.Pos(adj.Pos()), "AdjustChunkCache re-indexes or empties the per-chunk cache "+f.Name()+" (entries computed on the unfiltered chunk must not be found for the filtered one)")
+		}
+	}
+	r.floor("cache maintenance obligations", n, 4)
+}
